@@ -174,6 +174,8 @@ class PurityRecorder:
     def verify(self, ctx, what):
         for (name, args, kwargs, out) in reversed(self.calls):
             again = self._outcome(self.orig[name], args, kwargs)
+            if again == out:
+                again = self._outcome(self.orig[name], args, kwargs)        # and once more, back to back (state left by the call itself)
             ctx.count(f"purity_replays:{name}")
             if again != out:
                 ctx.violation(f"{what}: the same call gives a different outcome later in the process",
